@@ -9,15 +9,16 @@ META = dict(
          "quotes, empty, unicode, int) x 3 header sets x 24 bodies (none, all 256 byte values, text, five JSON values, form arguments with the same "
          "reserved values) = every combination is built by Requester.build, parsed by Requestant and turned into a WSGI environ by "
          "Valet.buildEnviron; method, unquoted path, query args (parse_qsl of QUERY_STRING), headers (case-insensitive), body / decoded form / "
-         "decoded JSON and the CGI variables must equal the inputs.  Responses: 6 statuses x 3 header sets x 8 body kinds (lists, generators "
+         "decoded JSON and the CGI variables must equal the inputs.  Responses: 5 statuses x 3 header sets x 9 body kinds, 204 / 304 / 102 with the empty kinds, and HEAD requests answered with each body kind (lists, generators "
          "with empty yields, StopIteration value, write() callable, binary) x with/without Content-Length x chunkable or not, plus HTTPError "
          "raised at call time / first next / after an empty yield (4 statuses x reasons x header sets), are served by Responder and parsed by "
-         "Respondent; status, reason, headers and body must equal what the application produced.  Reuse: every ordered pair of 12 response "
-         "kinds (fixed, chunked, generator streamed / fixed, empty, StopIteration value, write(), binary, HTTPError at three sites) x chunkable "
+         "Respondent; status, reason, headers and body must equal what the application produced.  Reuse: every ordered pair of 19 response "
+         "kinds (fixed, chunked, generator streamed / fixed, empty, StopIteration value, write(), binary, 204 / 304 / 102 without Content-Length, "
+         "HEAD answered with a body, HTTPError at three sites) x chunkable "
          "combinations is served by ONE Responder that is reset between the two the way Valet does on a persistent connection and parsed by ONE "
          "re-armed Respondent; both responses must equal what the application produced and leave no bytes behind.",
     note="Pure product of small sets, no sockets and no arrival schedules (C29 covers those); multipart form bodies, header values outside "
-         "latin-1, duplicate header names, HEAD responses and HTTPError raised after the head was sent are not exercised.  GET requests "
+         "latin-1, duplicate header names and HTTPError raised after the head was sent are not exercised.  GET requests "
          "carry no body by ioflo's documented design, so the expected body for GET is empty.",
 )
 import io
@@ -210,12 +211,21 @@ RHEADERS = [
     [("Content-Type", "text/plain")],
     [("Content-Type", "application/json"), ("X-Custom", "a: b, c"), ("Set-Cookie", "k=v; Path=/")],
 ]
-BODYKINDS = ["list1", "list3", "empty-list", "gen", "gen-return", "gen-empty", "write", "binary"]
+BODYKINDS = ["list1", "list3", "empty-list", "gen", "gen-return", "gen-empty", "gen-empty-yield", "write", "binary"]
+BODILESS_STATUSES = ["204 No Content", "304 Not Modified", "102 Processing"]     # no body by HTTP rules
+EMPTYKINDS = ("empty-list", "gen-empty", "gen-empty-yield")
+
+
+def bodiless(status, method):
+    """HTTP: a response to HEAD and any 1xx / 204 / 304 response carries no body."""
+    code = int(status.split(" ")[0])
+    return method == "HEAD" or code in (204, 304) or 100 <= code < 200
 
 
 def make_app(status, headers, kind, declare):
     pieces = {"list1": [b"hello"], "list3": [b"he", b"", b"llo\r\n0\r\n\r\n"], "empty-list": [],
-              "gen": [b"a", b"", b"bc"], "gen-return": [b"a", b"z"], "gen-empty": [], "write": [b"ab", b"cd"],
+              "gen": [b"a", b"", b"bc"], "gen-return": [b"a", b"z"], "gen-empty": [], "gen-empty-yield": [b""],
+              "write": [b"ab", b"cd"],
               "binary": [bytes(range(256))]}[kind]
     body = b"".join(pieces)
     hdrs = list(headers)
@@ -225,7 +235,7 @@ def make_app(status, headers, kind, declare):
         def app(environ, start):
             start(status, list(hdrs))
             return list(pieces)
-    elif kind == "gen":
+    elif kind in ("gen", "gen-empty-yield"):
         def app(environ, start):
             start(status, list(hdrs))
             for p in pieces:
@@ -275,7 +285,7 @@ def make_error_app(status, reason, eheaders, site):
     return app, "%d %s" % (e.status, e.reason), hdrs, e.render()
 
 
-def response_case(case, app, status, hdrs, body, chunkable, part, replay):
+def response_case(case, app, status, hdrs, body, chunkable, part, replay, method="GET"):
     from ioflo.aio.http import clienting, serving
     from ioflo.aio.tcp import serving as tcpserving
 
@@ -283,8 +293,10 @@ def response_case(case, app, status, hdrs, body, chunkable, part, replay):
         part.violation("response|%s" % field, case, "response %s: %s" % (case, what), replay)
 
     ix = tcpserving.Incomer(ha=("127.0.0.1", 8080), ca=("127.0.0.1", 50001), cs=None, store=STORE[0])
-    environ = {"REQUEST_METHOD": "GET", "PATH_INFO": "/", "SERVER_PROTOCOL": "HTTP/1.1" if chunkable else "HTTP/1.0"}
+    environ = {"REQUEST_METHOD": method, "PATH_INFO": "/", "SERVER_PROTOCOL": "HTTP/1.1" if chunkable else "HTTP/1.0"}
     rp = serving.Responder(incomer=ix, app=app, environ=environ, chunkable=chunkable)
+    if bodiless(status, method):
+        body = b""
     calls = 0
     try:
         while not rp.ended and calls < 20:
@@ -298,8 +310,8 @@ def response_case(case, app, status, hdrs, body, chunkable, part, replay):
         return "never-ends"
     wire = b"".join(bytes(t) for t in ix.txes)
     replay["wire"] = wire
-    delimited = chunkable or any(k.lower() == "content-length" for k, v in hdrs)
-    r = clienting.Respondent(msg=bytearray(), method="GET")
+    delimited = bodiless(status, method) or chunkable or any(k.lower() == "content-length" for k, v in hdrs)
+    r = clienting.Respondent(msg=bytearray(), method=method)
     steps, finished, exc, delivered = split.drive(r, [wire], close=not delimited, idle=1)
     if exc is not None:
         bad("raises:%s|%s" % (type(exc).__name__, innermost(exc)), "Respondent.parse raised %r on %r" % (exc, wire))
@@ -319,7 +331,7 @@ def response_case(case, app, status, hdrs, body, chunkable, part, replay):
     if bytes(r.body) != body:
         bad("body", "body %r parsed as %r (wire %r)" % (body, bytes(r.body), wire))
     if r.msg:
-        part.notes["response leaves %d unconsumed bytes" % len(r.msg)] += 1
+        bad("leftover", "%d bytes %r of the response left in the client's receive buffer (wire %r)" % (len(r.msg), bytes(r.msg[:40]), wire))
     return "ok"
 
 
@@ -333,22 +345,27 @@ def work_responses(arg):
     part = core.Part()
     with core.watchdog(300):
         if arg == "normal":
-            for status in STATUSES + ["204 No Content"]:
-                for headers in RHEADERS:
-                    for kind in BODYKINDS:
-                        if status.startswith("204") and kind not in ("empty-list", "gen-empty"):
-                            continue
-                        for declare in (True, False):
-                            for chunkable in (True, False):
-                                app, hdrs, body = make_app(status, headers, kind, declare)
-                                case = "%s headers=%r body=%s content-length=%s chunkable=%s" % (
-                                    status, headers, kind, "declared" if declare else "absent", chunkable)
-                                out = response_case(case, app, status, hdrs, body, chunkable, part,
-                                                    dict(direction="response", status=status, headers=hdrs, body_kind=kind,
-                                                         body=body, chunkable=chunkable))
-                                part.evaluations += 1
-                                part.nontrivial(case)
-                                part.outcome("response:%s:%s:%s" % (kind, "len" if declare else ("chunked" if chunkable else "close"), out))
+            for method, statuses in (("GET", STATUSES + BODILESS_STATUSES), ("HEAD", STATUSES[:2])):
+                for status in statuses:
+                    for headers in RHEADERS:
+                        for kind in BODYKINDS:
+                            if status in BODILESS_STATUSES and kind not in EMPTYKINDS:
+                                continue     # an application has no business sending a body with 1xx/204/304
+                            for declare in (True, False):
+                                if status in BODILESS_STATUSES and declare:
+                                    continue
+                                for chunkable in (True, False):
+                                    app, hdrs, body = make_app(status, headers, kind, declare)
+                                    case = "%s%s headers=%r body=%s content-length=%s chunkable=%s" % (
+                                        "HEAD request -> " if method == "HEAD" else "", status, headers, kind,
+                                        "declared" if declare else "absent", chunkable)
+                                    out = response_case(case, app, status, hdrs, body, chunkable, part,
+                                                        dict(direction="response", request_method=method, status=status, headers=hdrs,
+                                                             body_kind=kind, body=body, chunkable=chunkable), method=method)
+                                    part.evaluations += 1
+                                    part.nontrivial(case)
+                                    part.outcome("response:%s%s:%s:%s" % ("HEAD:" if method == "HEAD" else "", kind,
+                                                                           "len" if declare else ("chunked" if chunkable else "close"), out))
             part.sample(dict(direction="response", case=case))
         else:
             for site in ERR_SITES:
@@ -381,6 +398,13 @@ PAIRKINDS = [          # label, ("app", body kind, Content-Length declared) | ("
     ("stopiteration-value", ("app", "gen-return", False)),
     ("write-callable", ("app", "write", False)),
     ("binary-fixed", ("app", "binary", True)),
+    ("204-empty", ("app", "empty-list", False, "204 No Content", "GET")),
+    ("204-gen-empty-yield", ("app", "gen-empty-yield", False, "204 No Content", "GET")),
+    ("304-empty", ("app", "empty-list", False, "304 Not Modified", "GET")),
+    ("304-gen-empty-yield", ("app", "gen-empty-yield", False, "304 Not Modified", "GET")),
+    ("102-empty", ("app", "empty-list", False, "102 Processing", "GET")),
+    ("head-body", ("app", "list1", False, None, "HEAD")),
+    ("head-body-fixed", ("app", "list1", True, None, "HEAD")),
     ("error-at-call", ("err", "call")),
     ("error-at-first-next", ("err", "first-next")),
     ("error-after-empty-yield", ("err", "after-empty-yield")),
@@ -392,11 +416,16 @@ def pair_member(which, spec):
     tag = "first" if which == 0 else "second"
     if spec[0] == "app":
         status = "200 OK" if which == 0 else "201 Created"
+        method = "GET"
+        if len(spec) > 3:
+            status, method = spec[3] or status, spec[4]
         app, hdrs, body = make_app(status, [("Content-Type", "text/plain"), ("X-Which", tag)], spec[1], spec[2])
-        return app, status, hdrs, body
+        if bodiless(status, method):
+            body = b""
+        return app, status, hdrs, body, method
     code, reason = (404, "") if which == 0 else (500, "Custom Failure")
     app, status, hdrs, body = make_error_app(code, reason, {"X-Which": tag}, spec[1])
-    return app, status, hdrs + [("Content-Length", str(len(body)))], body
+    return app, status, hdrs + [("Content-Length", str(len(body)))], body, "GET"
 
 
 def pair_case(case, specs, chunkables, part, replay):
@@ -415,7 +444,7 @@ def pair_case(case, specs, chunkables, part, replay):
     r = clienting.Respondent(msg=buf, method="GET")
     rp = None
     for which in (0, 1):
-        sub, status, hdrs, body = members[which]
+        sub, status, hdrs, body, method = members[which]
         chunkable = chunkables[which]
         tagw = "first" if which == 0 else "second"
 
@@ -423,7 +452,7 @@ def pair_case(case, specs, chunkables, part, replay):
             part.violation("response-reused|%s|%s" % (tagw, field), case,
                            "reused Responder %s, %s response: %s" % (case, tagw, what), replay)
 
-        environ = {"REQUEST_METHOD": "GET", "PATH_INFO": "/", "verif.which": which,
+        environ = {"REQUEST_METHOD": method, "PATH_INFO": "/", "verif.which": which,
                    "SERVER_PROTOCOL": "HTTP/1.1" if chunkable else "HTTP/1.0"}
         if rp is None:
             rp = serving.Responder(incomer=ix, app=app, environ=environ, chunkable=chunkable)
@@ -446,10 +475,10 @@ def pair_case(case, specs, chunkables, part, replay):
         wire = b"".join(bytes(t) for t in ix.txes)
         ix.txes.clear()
         replay["wire_%s" % tagw] = wire
-        delimited = chunkable or any(k.lower() == "content-length" for k, v in hdrs)
-        if which == 1:                       # Patron: makeParser() after a response, reinit() at the next transmit
+        delimited = bodiless(status, method) or chunkable or any(k.lower() == "content-length" for k, v in hdrs)
+        if which == 1:                       # Patron: makeParser() after a response ...
             r.makeParser()
-            r.reinit(method="GET")
+        r.reinit(method=method)              # ... and reinit(method=...) at every transmit
         steps, finished, exc, delivered = split.drive(r, [wire], close=not delimited, idle=1)
         if exc is not None:
             bad("raises:%s|%s" % (type(exc).__name__, innermost(exc)), "Respondent.parse raised %r on %r" % (exc, wire))
@@ -483,7 +512,8 @@ def work_pairs(arg):
     with core.watchdog(300):
         for second_label, second_spec in PAIRKINDS:
             for chunkables in ((True, True), (True, False), (False, True), (False, False)):
-                first_delimited = chunkables[0] or first_spec[0] == "err" or first_spec[2]
+                first_delimited = (chunkables[0] or first_spec[0] == "err" or first_spec[2] or
+                                   (len(first_spec) > 3 and bodiless(first_spec[3] or "200 OK", first_spec[4])))
                 if not first_delimited:
                     continue     # an undelimited first response ends the connection: no second response on it
                 case = "%s -> %s chunkable=%s,%s" % (first_label, second_label, chunkables[0], chunkables[1])
@@ -529,12 +559,15 @@ def run():
         "the next request on a persistent connection (chunkable = request is HTTP/1.1); the client Respondent is re-armed with makeParser() and "
         "reinit(method=...) as Patron does; pairs whose first response is not delimited (no Content-Length, not chunkable) are skipped because "
         "that response ends the connection; response bodies are read when each response completes",
+        "by HTTP rules a response to HEAD and any 1xx / 204 / 304 response has no body: the body the client must see for those is empty whatever "
+        "the application yields, the application's headers (including a Content-Length on a HEAD response) must still arrive, and no byte of "
+        "such a response may stay in the client's receive buffer",
         "auto-added headers (Host, Accept-Encoding, Server, Date, Transfer-Encoding) are not compared except Host",
     ]
     return ck.finish(
         rule="every element of methods x paths x query-arg sets x header sets x bodies (requests) and statuses x header sets x body kinds x "
              "content-length x chunkable plus error sites x error statuses x error headers x chunkable (responses), and every ordered pair of "
-             "the 12 response kinds x 4 chunkable combinations on one reused Responder; each combination is a distinct non-trivial case",
+             "the 19 response kinds x 4 chunkable combinations on one reused Responder; each combination is a distinct non-trivial case",
         exhaustive=True)
 
 
